@@ -4,6 +4,7 @@ from __future__ import annotations
 import collections
 import os
 import shutil
+import subprocess
 import tempfile
 from pathlib import Path
 
@@ -30,6 +31,9 @@ def correspondence(ctx):
         CC.corr_globmatch(m, rng("c09-glob"), ctx.scale(4000, 150000) * k),
         CC.corr_match_redirect(m, rng("c09-mr"), ctx.scale(400, 12000) * k),
     ]
+
+
+RANKQ = {"allow": 0, "ask": 1, "deny": 2}
 
 
 def respell(r, canonical: str, cwd: str, home: str) -> str:
@@ -121,6 +125,31 @@ def search(ctx):
                     stats["confinement_checks"] += 1
                     if not (real + "/").startswith(Dreal + "/"):
                         vios.append({"input": {"config": text, "cwd": cwd.replace(root, "<root>"), "target": s.replace(root, "<root>")}, "observed": {"granted_by": m[1].replace(root, "<root>"), "file_written": real.replace(root, "<root>")}, "required": "an allow-redirect for a directory cannot be used to write outside it", "oracle": "confined"})
+            # shell quoting inside the word (bash removes it before it opens the file): the quoted spelling of the same file
+            # must never be judged more leniently than the canonical one; that it is *asked* about where the canonical
+            # spelling is denied (or allowed) is the open finding F09d
+            base_act = results[0][3]
+            for s0 in [x[0] for x in results if x[1] == base_real][:2]:
+                parts = s0.split("/")
+                idxs = [i for i, p_ in enumerate(parts) if p_ and p_ != "~"]
+                if not idxs:
+                    continue
+                i = r.pick(idxs)
+                qkind = r.pick(["dq", "sq", "bs", "empty"])
+                seg = parts[i]
+                parts[i] = {"dq": '"' + seg + '"', "sq": "'" + seg + "'", "bs": "\\" + seg, "empty": seg + '""'}[qkind]
+                sq_ = "/".join(parts)
+                try:
+                    back = subprocess.run(["bash", "-c", "printf %s " + sq_], capture_output=True, text=True, timeout=5, env={"HOME": home, "PATH": "/usr/bin:/bin"}).stdout
+                except Exception:  # noqa: BLE001
+                    continue
+                if back != (os.path.expanduser(s0) if s0.startswith("~") else s0):
+                    continue  # the quoting changed the word (e.g. a quoted tilde): not the same file
+                d = analyze("echo x > " + sq_, cfg, Path(cwd))
+                stats["evaluations"] += 1
+                stats["quoted_spellings"] += 1
+                if RANKQ[d.action] < RANKQ[base_act]:
+                    vios.append({"input": {"config": text, "cwd": cwd.replace(root, "<root>"), "spellings": [results[0][0].replace(root, "<root>"), sq_.replace(root, "<root>")]}, "observed": {"canonical": base_act, "quoted": d.action}, "required": "same file (bash removes the quotes): never judged more leniently than the canonical spelling", "oracle": "spelling-invariant(shell quoting)", "quoted_weaker": base_act == "deny" and d.action == "ask"})
             # a symlink that leaves the granted directory
             if r.chance(0.15):
                 s = work + "/ok/escape/x"
@@ -162,12 +191,21 @@ def search(ctx):
 
 
 def matches_finding(entry, v) -> bool:
+    if entry.get("id") == "F09d":
+        return v.get("oracle") == "spelling-invariant(shell quoting)" and bool(v.get("quoted_weaker"))
     if entry.get("id") == "F09b":
         return v.get("oracle") == "command-arg-spelling" and bool(v.get("bare_word"))
     return False
 
 
 def finding_still_fails(ctx, entry) -> bool:
+    if entry.get("id") == "F09d":
+        from dippy.core import config as C
+        from dippy.core.analyzer import analyze
+
+        w = entry["witness"]
+        cfg = C.parse_config(w["config"])
+        return analyze(w["commands"][0], cfg, Path("/tmp/probe")).action == "deny" and analyze(w["commands"][1], cfg, Path("/tmp/probe")).action == "ask"
     if entry.get("id") == "F09b":
         from dippy.core import config as C
         from dippy.core.analyzer import analyze
